@@ -444,6 +444,12 @@ func (x *Exec) evalBinop(env *Env, e *Expr) (Val, error) {
 	a, ok1 := av.(*Term)
 	b, ok2 := bv.(*Term)
 	if !ok1 || !ok2 {
+		// comparing the pointee of a nil pointer with a value: partial, like a field of nil
+		_, n1 := av.(*NilPtr)
+		_, n2 := bv.(*NilPtr)
+		if (n1 && ok2) || (n2 && ok1) {
+			return nil, errNilDeref{fmt.Sprintf("comparison with the pointee of nil in %s", e)}
+		}
 		return nil, fmt.Errorf("operands of %s are not terms (%T, %T) in %s", op, av, bv, e)
 	}
 	// integer literals compared / combined with reals are promoted
